@@ -165,6 +165,18 @@ Theorem C20_file_reader_partial : forall p0 rest,
 Proof. intros. rewrite gen_sizes_std. now apply impl_read_spec. Qed.
 Print Assumptions C20_file_reader_partial.
 
+(* Grid sizes of 1000 and more: the I3 fields NX, NY hold the size modulo 1000 and the two
+   characters of the grid id hold the thousands as letters CHAR(64 + n/1000); the pair round-trips
+   for every size 0..26999 ('@'..'Z'), and any ordinary grid id (bytes up to '@') serves sizes below
+   1000.  enc / dec / impl_read use exactly this rule (C20_file_dec_enc and C20_file_reader_partial
+   cover such grids: wf_period allows NX, NY up to 26999 and demands the matching letters). *)
+Theorem C20_file_grid_size_roundtrip : forall n g,
+  0 <= n <= 26999 -> (g = 64 + n / 1000 \/ (n < 1000 /\ g <= 64)) ->
+  length (fmtI 3 (n mod 1000)) = 3%nat
+  /\ (do z <- parseI (fmtI 3 (n mod 1000)); Some (z + grid_thousands g)) = Some n
+  /\ 64 <= 64 + n / 1000 <= 90.
+Proof. exact grid_size_roundtrip. Qed.
+Print Assumptions C20_file_grid_size_roundtrip.
 (* Times: a time stamp written as the format prescribes (five I2 fields) is decoded by the reader's
    rule (blank -> '0', two digits per field) to the year, month, day and hour that were written;
    with C20_file_reader_partial (lb_times = the stamps of the content) the times read back are the
@@ -298,3 +310,13 @@ Example C20_file_hyp_inhabited :
   /\ forallb lib_grid_ok ex_file = true /\ forallb lvl_texts_ok ex_file = true /\ forallb keys_disjoint ex_file = true
   /\ impl_read std_sizes (enc ex_file) = spec_view ex_file /\ spec_view ex_file <> None.
 Proof. vm_compute. repeat split; try reflexivity; discriminate. Qed.
+
+(* a 1003 x 2 grid ("A@") and a 2 x 2005 grid ("@B"): well formed, decoded, read by the reader model *)
+Definition ex_large := [Period w_time [65; 64] w_fixed 1003 2 [32; 50] (repeat 32 (2006 - 124)) [Lvl w_sfc [w_var k_PRSS w_v0 2006]]].
+Definition ex_large2 := [Period w_time [64; 66] w_fixed 2 2005 [32; 50] (repeat 32 (4010 - 124)) [Lvl w_sfc [w_var k_PRSS w_v0 4010]]].
+Example C20_file_large_grid :
+  forallb wf_period ex_large = true /\ dec (enc ex_large) = Some ex_large
+  /\ impl_read std_sizes (enc ex_large) = spec_view ex_large /\ spec_view ex_large <> None
+  /\ forallb wf_period ex_large2 = true /\ impl_read std_sizes (enc ex_large2) = spec_view ex_large2.
+Proof. vm_compute. repeat split; try reflexivity; discriminate. Qed.
+
